@@ -56,6 +56,17 @@ func genSendable(r *Rng, ts []pduType, responsable bool, limit int) interface{} 
 	}
 }
 
+// genBigPDU: a data_sm whose message_payload TLV pushes the frame beyond 32 KiB (io.Copy's buffer size).
+func genBigPDU(r *Rng) interface{} {
+	n := 33000 + r.Intn(27000)
+	b := make([]byte, n)
+	for i := range b {
+		b[i] = byte(i*7 + n)
+	}
+	return &pdu.DataSM{ServiceType: "big", SourceAddr: pdu.Address{TON: 1, NPI: 1, No: "100"}, DestAddr: pdu.Address{TON: 1, NPI: 1, No: "200"},
+		Tags: pdu.Tags{0x0424: b}}
+}
+
 type c14Plan struct {
 	G     int
 	Specs []CallSpec
@@ -85,11 +96,12 @@ func c14Check(r *Run, input string, writes []*WriteRec, calls []*Call, mode stri
 			continue
 		}
 		f := expectedFrame(c.P, c.Seq)
-		reached := f != nil && c.Seq > 0
+		reached := f != nil && c.Seq > 0 && !c.DeadlineFails
 		switch {
 		case !reached && c.ret && c.Err == nil:
 			r.Fail("send/"+mode+"/refusal-missing", "a call that cannot reach the transport returned nil", input,
-				fmt.Sprintf("%s seq=%d %T returned nil", c.Kind, c.Seq, c.P), "non-positive sequence numbers and unmarshallable packets are refused with an error")
+				fmt.Sprintf("%s seq=%d %T deadline_fails=%v returned nil", c.Kind, c.Seq, c.P, c.DeadlineFails),
+				"non-positive sequence numbers, unmarshallable packets and calls whose write deadline cannot be set are refused with an error")
 		case reached:
 			want[string(f)] = append(want[string(f)], c)
 		}
@@ -144,8 +156,8 @@ func corrC14(r *Run) {
 	r.Import("Model.ConnRun")
 	r.PerShard(12)
 	r.Rule = "forced schedules: 2..6 goroutines issuing 1..4 Send/Submit calls each with PDUs of all registered types (frames up to 3 kB, a few up to 20 kB), " +
-		"every transport Write held and released in a random order, responses before or after the Write returns, non-positive sequence numbers and " +
-		"unmarshallable packets mixed in; plus free-running rounds on the writer-holding transport of the property text; " +
+		"every transport Write held and released in a random order, responses before or after the Write returns, non-positive sequence numbers, " +
+		"unmarshallable packets, frames of 33..60 kB (beyond a 32 KiB copy buffer) and, with a write timeout configured, calls whose SetWriteDeadline the transport refuses mixed in; plus free-running rounds on the writer-holding transport of the property text; " +
 		"non-trivial = schedules with at least two goroutines holding a Write at the same time; distinct by event list"
 	ts := pduTypes()
 	nForced := r.N(100, 1500)
@@ -163,6 +175,10 @@ func c14Forced(r *Run, ts []pduType, idx int) {
 	rng := r.Rng
 	w := NewWorld(true)
 	defer w.Shutdown()
+	timeouts := idx%2 == 1 // a write timeout is configured: Send sets a write deadline before every frame
+	if timeouts {
+		w.C.WriteTimeout = time.Hour
+	}
 	w.StartWatch()
 	ng := 2 + rng.Intn(5)
 	if idx < 4 {
@@ -184,6 +200,9 @@ func c14Forced(r *Run, ts []pduType, idx int) {
 				kind = "submit"
 			}
 			p := genSendable(rng, ts, kind == "submit", limit)
+			if rng.Intn(70) == 0 || (idx == 2 && g == 0 && j == 0) {
+				p = genBigPDU(rng) // a frame that does not fit a 32 KiB copy buffer
+			}
 			seq += int32(1 + rng.Intn(3))
 			s := seq
 			switch rng.Intn(12) {
@@ -198,7 +217,9 @@ func c14Forced(r *Run, ts []pduType, idx int) {
 			if kind == "send" {
 				pdu.WriteSequence(p, s)
 			}
-			specs = append(specs, CallSpec{Kind: kind, Seq: s, P: p})
+			// the transport refuses SetWriteDeadline for this call: it must fail without contributing octets
+			dl := timeouts && (rng.Intn(8) == 0 || (idx == 1 && g == 0 && j == 0))
+			specs = append(specs, CallSpec{Kind: kind, Seq: s, P: p, DeadlineFails: dl})
 		}
 		plans = append(plans, c14Plan{g, specs})
 	}
@@ -281,6 +302,9 @@ func c14Free(r *Run, ts []pduType, idx int) {
 		var pr prog
 		for j, n := 0, 2+rng.Intn(6); j < n; j++ {
 			p := genSendable(rng, ts, false, 3000)
+			if rng.Intn(60) == 0 || (idx == 0 && g == 0 && j == 1) {
+				p = genBigPDU(rng)
+			}
 			seq++
 			s := seq
 			if rng.Intn(10) == 0 {
